@@ -15,6 +15,10 @@ package main
 //	                                     (each <sib> a stack appended by ThenWith… calls); all are derived first, then EVERY
 //	                                     builder sorts (api tl = ToSortedList, bs = Sort); observation "[..] | [..] | …":
 //	                                     prefix builder first, then the siblings in derivation order
+//	S <api> <all>/<k>/<ws|->/<ext>: rec ; ...   a CALLER-OWNED descriptor slice `all` (len = cap) is spread into an empty builder:
+//	                                     b := New().ThenWith(all[:k]...); b2 := b.ThenWith…(ext); then the caller overwrites
+//	                                     all[j] = ws[j]; sorts with b, b2 and SortedListBySortDescriptors(all, …) — observation
+//	                                     "[b] | [b2] | [all]" (b must hold a copy of all[:k], the caller's slice its own writes)
 //	T <api> X=<stack>/Y=<stack>[/Z=<stack>]: rec ; ...   three DISTINCT record types that all print as "main.row" but order
 //	                                     their fields differently (Z has a non-Comparable field early), sorted one after the other
 //	                                     in the same process (api sl | tl); observation "[..] | [..] | …"
@@ -289,6 +293,8 @@ func c19Run(line string) string {
 		}
 	}
 	switch head[0] {
+	case "S":
+		return c19RunSpread(api, strings.Split(head[2], "/"), recs)
 	case "F":
 		return c19RunFork(api, strings.Split(head[2], "/"), recs)
 	case "T":
@@ -514,6 +520,59 @@ func c19RunNil(head []string, toks []string) string {
 		return base(x.(c19Rec), y.(c19Rec))
 	}
 	return c19IfaceSort(head[1], arr, less)
+}
+
+// ---------------------------------------------------------------------------------------------
+// a caller-owned descriptor slice spread into an empty builder
+
+func c19MkDesc(d c19D) fpgo.SortDescriptor[c19Rec] {
+	if d.kind == 'f' {
+		return fpgo.NewFieldSortDescriptor[c19Rec](string(d.field), d.asc)
+	}
+	return fpgo.NewSimpleSortDescriptor(c19Transformer(d.field), d.asc)
+}
+
+func c19RunSpread(api string, parts []string, recs []c19Rec) string {
+	if len(parts) != 4 {
+		return "bad-case"
+	}
+	allD, ok := c19ParseStack(parts[0])
+	k, err := strconv.Atoi(parts[1])
+	if !ok || err != nil || k < 1 || k > len(allD) {
+		return "bad-case"
+	}
+	var ws []c19D
+	if parts[2] != "-" {
+		if ws, ok = c19ParseStack(parts[2]); !ok || len(ws) > len(allD) {
+			return "bad-case"
+		}
+	}
+	extD, ok := c19ParseStack(parts[3])
+	if !ok || len(extD) != 1 {
+		return "bad-case"
+	}
+	all := make([]fpgo.SortDescriptor[c19Rec], len(allD)) // len = cap: all[:k] has spare capacity up to len(all)
+	for i, d := range allD {
+		all[i] = c19MkDesc(d)
+	}
+	b := fpgo.NewSortDescriptorsBuilder[c19Rec]().ThenWith(all[:k]...)
+	b2 := c19Derive(b, extD, len(recs))
+	for j, d := range ws {
+		all[j] = c19MkDesc(d)
+	}
+	outs := make([]string, 3)
+	sortWith := func(bb fpgo.SortDescriptorsBuilder[c19Rec]) string {
+		if api == "bs" {
+			cp := append([]c19Rec(nil), recs...)
+			bb.Sort(cp)
+			return c19Ids(cp)
+		}
+		return c19Ids(bb.ToSortedList(recs...))
+	}
+	outs[2] = c19Ids(fpgo.SortedListBySortDescriptors(all, recs...))
+	outs[1] = sortWith(b2)
+	outs[0] = sortWith(b)
+	return strings.Join(outs, " | ")
 }
 
 // ---------------------------------------------------------------------------------------------
@@ -1242,6 +1301,69 @@ func c19Gen(tier string, rng *rand.Rand, emit func(string)) map[string]interface
 			l[j] = randRec(wn, true)
 		}
 		emitF(pre, sibs, strings.Join(l, " ; "))
+	}
+
+	// (4b') a caller-owned descriptor slice spread into an EMPTY builder, then caller writes / builder extension
+	nSpread := 6000
+	if thorough {
+		nSpread = 40000
+	}
+	for i := 0; i < nSpread; i++ {
+		perm := rng.Perm(4)
+		na := 2 + rng.Intn(2)
+		allD := make([]c19D, na)
+		for j := range allD {
+			allD[j] = all[perm[j]*4+rng.Intn(4)]
+		}
+		k := 1 + rng.Intn(2) // the extended builder then has k+1 <= 3 keys
+		// the extension: a descriptor over a field the prefix does not use (often the very field of all[k], other direction)
+		var ext c19D
+		for {
+			ext = all[rng.Intn(len(all))]
+			used := false
+			for _, d := range allD[:k] {
+				if d.field == ext.field {
+					used = true
+				}
+			}
+			if !used {
+				break
+			}
+		}
+		if k < na && rng.Intn(2) == 0 {
+			ext = c19D{allD[k].kind, allD[k].field, !allD[k].asc}
+		}
+		// caller writes: none, or the first 1..na entries replaced (other direction / other field)
+		wsS := "-"
+		var wsD []c19D
+		if rng.Intn(3) > 0 {
+			nw := 1 + rng.Intn(na)
+			p2 := rng.Perm(4)
+			for j := 0; j < nw; j++ {
+				if rng.Intn(2) == 0 {
+					wsD = append(wsD, c19D{allD[j].kind, allD[j].field, !allD[j].asc})
+				} else {
+					wsD = append(wsD, all[p2[j]*4+rng.Intn(4)])
+				}
+			}
+			wsS = c19StackString(wsD)
+		}
+		wn := map[byte]bool{}
+		for _, f := range c19Fields {
+			wn[f] = true
+		}
+		for _, d := range append(append(append([]c19D{}, allD...), wsD...), ext) {
+			if d.kind == 'f' {
+				wn[d.field] = false
+			}
+		}
+		n := 2 + rng.Intn(6)
+		l := make([]string, n)
+		for j := range l {
+			l[j] = randRec(wn, true)
+		}
+		emit("S " + forkApis[i%2] + " " + c19StackString(allD) + "/" + strconv.Itoa(k) + "/" + wsS + "/" + c19StackString([]c19D{ext}) + ": " + strings.Join(l, " ; "))
+		counts["spread"]++
 	}
 
 	// (4c) same-named record types X, Y, Z sorted by field name one after the other in ONE case
